@@ -27,6 +27,15 @@ impl Driven for D {
          _ => panic!("verif harness: unknown relation {}", rel),
       }
    }
+   fn clear(&mut self, rel: &str) {
+      match rel {
+         "e" => { self.0.e = Default::default(); },
+         "f" => { self.0.f = Default::default(); },
+         "n" => { self.0.n = Default::default(); },
+         "r" => { self.0.r = Default::default(); },
+         _ => panic!("verif harness: unknown relation {}", rel),
+      }
+   }
    fn run(&mut self) { self.0.run(); }
    fn dump(&self) -> Value {
       let mut m: Vec<(String, Value)> = vec![];
